@@ -348,6 +348,14 @@ impl<H: Host> ZXController<H> {
         }
     }
 
+    /// Re-enables 128K paging (as hardware reset does). Required before port 0x7FFD
+    /// value from a snapshot is applied to a machine which has locked paging
+    pub fn unlock_paging(&mut self) {
+        if self.machine == ZXMachine::Sinclair128K {
+            self.paging_enabled = true;
+        }
+    }
+
     pub fn read_7ffd(&self) -> u8 {
         self.current_port_7ffd
     }
